@@ -13,11 +13,67 @@ const char* RULE =
     "are reported per (class, d).";
 void harness_init() { quiet_gsl(); }
 
-static const char* CLS[] = {"dense", "sparse", "diagonal", "projector", "identity-multiple", "single-generator", "repeated-eigenvalues", "near-degenerate", "zero", "zero-02-entry", "mixed-scales", "unit-and-tiny-generators", "unit-and-tiny-generators"};
+static const char* CLS[] = {"dense", "sparse", "diagonal", "projector", "identity-multiple", "single-generator", "repeated-eigenvalues", "near-degenerate", "zero", "zero-02-entry", "mixed-scales", "unit-and-tiny-generators", "unit-and-tiny-generators", "chain-with-uncoupled-levels", "chain-with-uncoupled-levels"};
 
+static void check_decomposition(const std::vector<double>& c, int d, bool order, CaseInfo& ci, const std::vector<ld>& known = std::vector<ld>(), unsigned kind = 0) {
+  VecHolder hv; SU_vector& v = hv.make(c, d, kind); ci.label(std::string("storage-") + hv.kind);  // the storage kind must not matter
+  Mat M = toM(c, d);
+  auto es = v.GetEigenSystem(order);
+  CHECK(es.first && es.second && (int)es.first->size == d && (int)es.second->size1 == d && (int)es.second->size2 == d, "C12|GetEigenSystem|shape", "d=%d", d);
+  CHECK(comps(v) == c, "C12|GetEigenSystem|operand-modified", "d=%d", d);
+  std::vector<ld> L(d);
+  Mat V = fromGsl(es.second.get());
+  for (int i = 0; i < d; i++) {
+    double l = gsl_vector_get(es.first.get(), i);
+    CHECK(std::isfinite(l), fmt("C12|GetEigenSystem|nonfinite|dim=%d", d), "eigenvalue %d = %g :: %s", i, l, ci.sample.c_str());
+    L[i] = l;
+  }
+  CHECK(all_finite(V), fmt("C12|GetEigenSystem|nonfinite|dim=%d", d), "eigenvector matrix has a non-finite entry :: %s", ci.sample.c_str());
+  ld nM = frob(M);
+  Mat D(d); for (int i = 0; i < d; i++) D.a[i][i] = cld(L[i], 0);
+  ld res = frob(M * V - V * D);
+  ld tol = 1e-12L * nM + TINY;  // 2M thorough cases stay below 4e-15 |M|_F: more than 200x headroom
+  CHECK(res <= tol, fmt("C12|GetEigenSystem|residual|dim=%d", d), "|MV-VL|_F=%.3Lg > 1e-12*|M|_F=%.3Lg :: %s", res, tol, ci.sample.c_str());
+  ci.ratio(fmt("residual-d%d", d), (double)(res / tol));
+  ld un = unitarity_defect(V);
+  CHECK(un <= 1e-12L, fmt("C12|GetEigenSystem|not-unitary|dim=%d", d), "|V^dagger V - I|_F=%.3Lg :: %s", un, ci.sample.c_str());
+  ci.ratio(fmt("unitarity-d%d", d), (double)(un / 1e-12L));
+  if (order) for (int i = 0; i + 1 < d; i++)
+    CHECK(L[i] <= L[i + 1], fmt("C12|GetEigenSystem|not-ascending|dim=%d", d), "L[%d]=%.17Lg > L[%d]=%.17Lg :: %s", i, L[i], i + 1, L[i + 1], ci.sample.c_str());
+  if (!known.empty()) {
+    std::vector<ld> Ls = L; std::sort(Ls.begin(), Ls.end());
+    for (int i = 0; i < d; i++)
+      CHECK(fabsl(Ls[i] - known[i]) <= 1e-12L * nM + 64 * d * EPS * nM + TINY, fmt("C12|GetEigenSystem|wrong-spectrum|dim=%d", d), "eigenvalue %d: %.17Lg vs constructed %.17Lg :: %s", i, Ls[i], known[i], ci.sample.c_str());
+  }
+}
+// Enumerated family (see enumerate()): six levels, a chain a -w- b -z- c -z- e with one weak real link w = 1e-9 and two equal links
+// z = 0.8 -+ i, the other two levels uncoupled, and a common offset m x 1e-12 with a three-digit mantissa. Exact zeros next to entries of
+// order one are where the rounding residues of a tridiagonalisation get squared from step to step; whether that ends in a subnormal
+// column depends on the placement of the chain and on the mantissa, so all of them are cases.
+static const uint8_t FAMILY_TAG = 199;
+static bool decode_chain_family(ByteSource& s, std::vector<double>& c, std::string* desc) {
+  if (s.n < 8 || s.p[0] != FAMILY_TAG) return false;
+  s.u8();
+  int lv[4]; bool used[6] = {false, false, false, false, false, false};
+  for (int q = 0; q < 4; q++) { int v = (int)s.choose(6); while (used[v]) v = (v + 1) % 6; used[v] = true; lv[q] = v; }
+  int m = 100 + (int)(s.u16() % 900); int sign = s.flag() ? 1 : -1;
+  c.assign(36, 0.0);
+  auto link = [&](int i, int j, double re, double im) { if (i > j) { std::swap(i, j); im = -im; } c[6 * i + j] = re; c[6 * j + i] = -im; };  // M(i,j) = re + i im for i<j
+  link(lv[0], lv[1], 1e-9, 0.0); link(lv[1], lv[2], 0.8, -1.0 * sign); link(lv[3], lv[2], 0.8, -1.0 * sign);
+  c[0] = m * 1e-12;
+  if (desc) *desc = fmt("chain %d -w- %d -z- %d -z- %d sign %d offset %de-12", lv[0], lv[1], lv[2], lv[3], sign, m);
+  return true;
+}
 void run_case(ByteSource& s, CaseInfo& ci) {
+  { std::vector<double> fc; std::string fd;
+    if (decode_chain_family(s, fc, &fd)) {
+      ci.nontrivial = true; ci.label("chain-family"); ci.sample = "GetEigenSystem(order=1) d=6 " + fd + " comps=" + vec_str(fc);
+      check_decomposition(fc, 6, true, ci);
+      return;
+    } }
   int d = gen_dim(s);
   unsigned k = s.choose(13);
+  if (s.tail_at(54) % 10 == 1) k = 13;  // (tail byte) the chain class was added later
   bool order = !s.flag();
   std::vector<double> c(d * d, 0.0);
   std::vector<ld> known;  // constructed spectrum, if any
@@ -49,6 +105,25 @@ void run_case(ByteSource& s, CaseInfo& ci) {
       for (int q = 0; q < nt; q++) c[s.u16() % (unsigned)(d * d)] = (s.flag() ? 1.0 : -1.0) * std::pow(10.0, -u) * (s.flag() ? 1.0 : 1.0 + s.unif01());
       break;
     }
+    case 13: case 14: {  // a chain of coupled levels (one weak link, the others of order one), the remaining levels uncoupled, and a small common
+      // offset: block structure makes exact zeros appear inside a tridiagonalisation, where rounding residues are then squared step by step
+      int L = 3 + (int)s.choose((unsigned)std::max(1, d - 2)); if (L > d) L = d;
+      std::vector<int> perm(d); for (int i = 0; i < d; i++) perm[i] = i;
+      for (int i = d - 1; i > 0; i--) { int j = (int)s.choose(i + 1); std::swap(perm[i], perm[j]); }
+      Mat M(d);
+      int weak = (int)s.choose(L - 1);
+      for (int q = 0; q + 1 < L; q++) {
+        cld z = q == weak ? cld(std::pow(10.0, -(double)s.range(6, 19)) * (1 + s.choose(9)), 0) : cld(0.1 * (1 + s.choose(12)), s.flag() ? 1.0 : 0.0);
+        M.a[perm[q]][perm[q + 1]] = z; M.a[perm[q + 1]][perm[q]] = std::conj(z);
+      }
+      ld off = (ld)(100 + (int)(s.u16() % 900)) * powl(10.0L, -(ld)s.range(10, 15));  // three-digit mantissa
+      for (int i = 0; i < d; i++) M.a[i][i] = cld(off, 0);
+      std::vector<ld> cc = fromM(M);
+      for (int i = 0; i < d * d; i++) c[i] = (double)cc[i];
+      c[0] = (double)off;  // the offset is exactly the identity component
+      for (int i = 1; i < d; i++) c[d * i + i] = 0.0;
+      break;
+    }
     case 8: break;
     case 9: { c = gen_dense(s, d); if (d >= 3) { c[2] = 0; c[2 * d] = 0; } break; }
     default: { for (int i = 0; i < d * d; i++) c[i] = s.dense() * std::ldexp(1.0, s.range(-27, 27)); break; }
@@ -59,37 +134,19 @@ void run_case(ByteSource& s, CaseInfo& ci) {
   ci.nontrivial = true;
   ci.label(fmt("%s-d%d", CLS[k], d)); ci.label(order ? "ordered" : "unordered");
   ci.sample = fmt("GetEigenSystem(order=%d) d=%d class=%s comps=%s", (int)order, d, CLS[k], vec_str(c).c_str());
-  VecHolder hv; SU_vector& v = hv.make(c, d, s.tail_choose(8)); ci.label(std::string("storage-") + hv.kind);  // the storage kind must not matter
-  Mat M = toM(c, d);
-  auto es = v.GetEigenSystem(order);
-  CHECK(es.first && es.second && (int)es.first->size == d && (int)es.second->size1 == d && (int)es.second->size2 == d, "C12|GetEigenSystem|shape", "d=%d", d);
-  CHECK(comps(v) == c, "C12|GetEigenSystem|operand-modified", "d=%d", d);
-  std::vector<ld> L(d);
-  Mat V = fromGsl(es.second.get());
-  for (int i = 0; i < d; i++) {
-    double l = gsl_vector_get(es.first.get(), i);
-    CHECK(std::isfinite(l), fmt("C12|GetEigenSystem|nonfinite|dim=%d", d), "eigenvalue %d = %g :: %s", i, l, ci.sample.c_str());
-    L[i] = l;
-  }
-  CHECK(all_finite(V), fmt("C12|GetEigenSystem|nonfinite|dim=%d", d), "eigenvector matrix has a non-finite entry :: %s", ci.sample.c_str());
-  ld nM = frob(M);
-  Mat D(d); for (int i = 0; i < d; i++) D.a[i][i] = cld(L[i], 0);
-  ld res = frob(M * V - V * D);
-  ld tol = 1e-12L * nM + TINY;  // 2M thorough cases stay below 4e-15 |M|_F: more than 200x headroom
-  CHECK(res <= tol, fmt("C12|GetEigenSystem|residual|dim=%d", d), "|MV-VL|_F=%.3Lg > 1e-12*|M|_F=%.3Lg :: %s", res, tol, ci.sample.c_str());
-  ci.ratio(fmt("residual-d%d", d), (double)(res / tol));
-  ld un = unitarity_defect(V);
-  CHECK(un <= 1e-12L, fmt("C12|GetEigenSystem|not-unitary|dim=%d", d), "|V^dagger V - I|_F=%.3Lg :: %s", un, ci.sample.c_str());
-  ci.ratio(fmt("unitarity-d%d", d), (double)(un / 1e-12L));
-  if (order) for (int i = 0; i + 1 < d; i++)
-    CHECK(L[i] <= L[i + 1], fmt("C12|GetEigenSystem|not-ascending|dim=%d", d), "L[%d]=%.17Lg > L[%d]=%.17Lg :: %s", i, L[i], i + 1, L[i + 1], ci.sample.c_str());
-  if (!known.empty()) {
-    std::vector<ld> Ls = L; std::sort(Ls.begin(), Ls.end());
-    for (int i = 0; i < d; i++)
-      CHECK(fabsl(Ls[i] - known[i]) <= 1e-12L * nM + 64 * d * EPS * nM + TINY, fmt("C12|GetEigenSystem|wrong-spectrum|dim=%d", d), "eigenvalue %d: %.17Lg vs constructed %.17Lg :: %s", i, Ls[i], known[i], ci.sample.c_str());
+  check_decomposition(c, d, order, ci, known, s.tail_choose(8));
+}
+// every ordered placement of the chain on four of the six levels x both signs x offsets m x 1e-12 (m = 100..999; every 3rd in the quick tier)
+void enumerate(const Emit& emit, const std::string& tier) {
+  int step = tier == "quick" ? 3 : 1;
+  for (int a = 0; a < 6; a++) for (int b = 0; b < 6; b++) for (int c = 0; c < 6; c++) for (int e = 0; e < 6; e++) {
+    if (a == b || a == c || a == e || b == c || b == e || c == e) continue;
+    for (int sg = 0; sg < 2; sg++) for (int m = 100; m < 1000; m += step) {
+      int mm = m - 100;
+      emit({FAMILY_TAG, (uint8_t)a, (uint8_t)b, (uint8_t)c, (uint8_t)e, (uint8_t)(mm & 255), (uint8_t)(mm >> 8), (uint8_t)sg});
+    }
   }
 }
-void enumerate(const Emit&, const std::string&) {}
 
 // fixed finding ba8a2de: NaN from the closed-form SU(3) solver for zero / diagonal / projector / identity-multiple inputs
 void regressions() {
@@ -105,6 +162,18 @@ void regressions() {
     Mat M = toM(c, 3), V = fromGsl(es.second.get()), D(3);
     for (int i = 0; i < 3; i++) { double l = gsl_vector_get(es.first.get(), i); CHECK(std::isfinite(l), "C12|GetEigenSystem|nonfinite|dim=3", "regression: eigenvalue %d of %s", i, vec_str(c).c_str()); D.a[i][i] = cld(l, 0); }
     CHECK(all_finite(V) && frob(M * V - V * D) <= 1e-12L * frob(M) + TINY && unitarity_defect(V) <= 1e-12L, "C12|GetEigenSystem|nonfinite|dim=3", "regression: invalid decomposition of %s", vec_str(c).c_str());
+  }
+  // eeed5e1: rounding residues squared inside GSL's tridiagonalisation (NaN, or a finite but non-unitary result) for a chain of levels
+  // with one weak link, uncoupled levels and a small offset
+  for (int m : {123, 154, 179, 246, 358}) for (int variant = 0; variant < 2; variant++) {
+    std::vector<double> c(36, 0.0); c[0] = m * 1e-12;
+    if (variant == 0) { c[3] = 1e-9; c[5] = 0.8; c[30] = 1; c[17] = 0.8; c[32] = 1; }      // chain 3 - 0 - 5 - 2
+    else { c[10] = 1e-9; c[11] = 0.8; c[31] = -1; c[23] = 0.8; c[33] = -1; }               // chain 4 - 1 - 5 - 3
+    SU_vector v = make_vec(c, 6);
+    auto es = v.GetEigenSystem(true);
+    Mat M = toM(c, 6), V = fromGsl(es.second.get()), D(6); bool fin = all_finite(V);
+    for (int i = 0; i < 6; i++) { double l = gsl_vector_get(es.first.get(), i); fin = fin && std::isfinite(l); D.a[i][i] = cld(l, 0); }
+    CHECK(fin && frob(M * V - V * D) <= 1e-12L * frob(M) + TINY && unitarity_defect(V) <= 1e-12L, "C12|GetEigenSystem|nonfinite|dim=6", "regression: invalid decomposition of %s", vec_str(c).c_str());
   }
   // 30a0961: entries of order one next to tiny ones, and uniformly tiny matrices (NaN from underflow inside gsl_eigen_hermv)
   struct { int d; std::vector<std::pair<int, double>> e; } wide[] = {
